@@ -540,7 +540,7 @@ def _ser_stateless_dispatch():
     ok = ok and "tp = type(obj)" in sv and "dispatch = self._dispatch[tp]" in sv and "methodname = 'save_' + tp.__name__" in sv and "dispatch(self, obj)" in sv
     ok = ok and "raise DumpError(" in sv and sv.count("self.") <= 4
     # a type is served by its NAME only if it is the builtin of that name (or the Channel class): a subclass called `int` is rejected
-    ok = ok and "if meth is None or (tp.__module__ != 'builtins' and tp is not Channel):\n            raise DumpError(" in sv
+    ok = ok and "if meth is None or not (tp is Channel or tp is type(None) or getattr(builtins, tp.__name__, None) is tp):\n            raise DumpError(" in sv
     di = _src(find("gateway_base.py", "dumps_internal"))
     ok = ok and "return _Serializer().save(obj)" in di
     # containers hand EVERY member (keys included) to _save: no short cut past the exact-type dispatch
